@@ -437,7 +437,83 @@ func (fr *Frame) applyDefault(site ssa.Instruction, key string, c *ssa.CallCommo
 		}
 		return res
 	}
+	if res, ok := fr.fallbackCall(site, key, c, sig, args, reach, st); ok {
+		return res
+	}
 	panic(engineErr("needs-spec", "no contract or default for callee %s (called at %s in %s)", key, ex.pos(instrPos(site)), fr.fn))
+}
+
+// fallbackCall handles a statically known callee that has neither a contract nor a default, so that a change which
+// introduces a call to a helper does not stop the check:
+//   - a function of the verified module with a body is executed in place (no recursion, bounded depth);
+//   - a function outside the module whose parameters cannot carry a call-back (no interface, function or channel
+//     values) is treated as affecting only the memory directly reachable from its arguments (slice elements, pointer
+//     targets, map entries), with arbitrary results. This is recorded as an assumption in the evidence.
+func (fr *Frame) fallbackCall(site ssa.Instruction, key string, c *ssa.CallCommon, sig *types.Signature, args []Val, reach T, st *State) ([]T, bool) {
+	ex := fr.ex
+	f := c.StaticCallee()
+	if f == nil {
+		return nil, false
+	}
+	inModule := f.Pkg != nil && strings.HasPrefix(f.Pkg.Pkg.Path(), modulePath)
+	if inModule {
+		if len(f.Blocks) == 0 {
+			return nil, false
+		}
+		depth := 0
+		for p := fr; p != nil; p = p.parent {
+			if p.fn == f {
+				return nil, false
+			}
+			depth++
+		}
+		if depth > 4 {
+			return nil, false
+		}
+		ex.assumed["callee without contract executed in place: "+shortKey(key)] = true
+		return fr.inline(site, &closureInfo{fn: f, frame: fr}, c.Args, reach, st), true
+	}
+	for _, a := range args {
+		switch u := a.typ.Underlying().(type) {
+		case *types.Interface, *types.Signature, *types.Chan:
+			return nil, false
+		case *types.Pointer:
+			if _, isIface := u.Elem().Underlying().(*types.Interface); isIface {
+				return nil, false
+			}
+		}
+	}
+	ex.assumed["callee without contract, assumed to affect only memory directly reachable from its arguments: "+shortKey(key)] = true
+	for _, a := range args {
+		switch u := a.typ.Underlying().(type) {
+		case *types.Slice:
+			cmp := ex.elemsComp(u.Elem())
+			cur := ex.get(st, cmp)
+			arr := app("Ref", "sl$arr", a.t)
+			ex.set(st, cmp, ite(eq(arr, tNil), cur, store(cur, arr, ex.fresh("hvrow", arraySort("Int", ex.sorts.sortOf(u.Elem()))))))
+		case *types.Map:
+			has, val, ln := ex.mapComps(u)
+			ks, vs := ex.sorts.sortOf(u.Key()), ex.sorts.sortOf(u.Elem())
+			ex.set(st, has, store(ex.get(st, has), a.t, ex.fresh("hvhas", arraySort(ks, "Bool"))))
+			ex.set(st, val, store(ex.get(st, val), a.t, ex.fresh("hvval", arraySort(ks, vs))))
+			l := ex.fresh("hvlen", "Int")
+			ex.assume(tTrue, app("Bool", ">=", l, intLit(0)))
+			ex.set(st, ln, store(ex.get(st, ln), a.t, l))
+		case *types.Pointer:
+			if a.lv != nil {
+				ex.havocLV(st, reach, a.lv)
+			} else {
+				ex.havocLV(st, reach, ex.ptrLV(a.t, u.Elem()))
+			}
+		}
+	}
+	var res []T
+	for i := 0; i < sig.Results().Len(); i++ {
+		rt := sig.Results().At(i).Type()
+		r := ex.freshOfType(fmt.Sprintf("f%d_%s_%d_r%d", fr.id, sanitize(fr.callName[site]), fr.callOrd[site], i), rt, tTrue, nil)
+		res = append(res, r)
+	}
+	return res, true
 }
 
 func relPath(p string) string {
